@@ -146,6 +146,7 @@ def run(a, res):
             return Resp(404, length=3)
         resp = Resp(200, [("Content-Type", "application/octet-stream"), ("Cache-Control", "max-age=86400")], length=n)
         resp.headers.append(("X-Verif-Hdr", "h-" + resp.rid))
+        resp.wall_mint = time.time()
         with lock:
             issued.setdefault(p, {})[resp.rid] = resp
         return resp
@@ -211,13 +212,15 @@ def run(a, res):
         prefix = f"/c16/{tag}"
         fresh_cache(sq, typ)
         sq.unprivileged = bool(smp)
-        for fn in ("wk.counter", "wk.log"):
+        for fn in ("wk.counter", "wk.log", "wk.dump"):
             p = f"{sq.work}/{fn}"
             open(p, "wb").close()
             os.chmod(p, 0o666)
             chown_nobody(p)
         sq.env_extra = {"LD_PRELOAD": so, "WKILL_PREFIX": f"{sq.work}/cd", "WKILL_COUNTER": f"{sq.work}/wk.counter", "WKILL_LOG": f"{sq.work}/wk.log",
                         "WKILL_AT": str(nwrite), "WKILL_PARTIAL": "1" if partial else "0", "WKILL_SEED": str(pseed)}
+        if nwrite == 0 and typ == "rock":
+            sq.env_extra["WKILL_DUMP"] = f"{sq.work}/wk.dump"     # the counting run of (non-SMP) rock also records every write's payload
         dead = lambda: os.path.exists(f"{sq.work}/wk.counter.dead")
         info = {"sq": sq, "prefix": prefix, "typ": typ, "requests": 0, "start_failed": False}
         tlog(tag, "init done")
@@ -358,6 +361,27 @@ def run(a, res):
                     if m.body != rp.body:
                         d = next((k for k in range(min(len(m.body), len(rp.body))) if m.body[k] != rp.body[k]), min(len(m.body), len(rp.body)))
                         key = "hit-truncated-served-as-complete" if rp.body.startswith(m.body) else "hit-body-differs"
+                        torn = info.get("torn_prefix")
+                        if torn is None:
+                            import re as _re
+                            mt = _re.search(r"prefix=(\d+) \(INJECTED\)", info.get("last", ""))
+                            torn = int(mt.group(1)) if (mt and wit.get("partial")) else 0
+                        if key == "hit-body-differs" and typ.startswith("rock") and torn >= 40:
+                            # the kill tore ONE slot write behind its 40-byte DbCellHeader: the header (payload size, chain links)
+                            # is on disk, its payload only partly; rock has no payload checksum
+                            key += ":write-torn-behind-the-slot-header"
+                        elif key == "hit-body-differs" and len(m.body) == len(rp.body):
+                            # where do the foreign bytes come from? rock identifies a slot chain by (key, version) and the version
+                            # is the entry's timestamp in whole seconds: a slot left over from an OLDER version of the same URL
+                            # stored within the same second is indistinguishable from the missing slot of the new chain
+                            probe = m.body[d + 8:d + 72]
+                            with lock:
+                                others = [o for r_, o in issued.get(path, {}).items() if r_ != rid]
+                            for o in others:
+                                if len(probe) >= 32 and probe in o.body:
+                                    dt = abs(getattr(o, "wall_mint", 0) - getattr(rp, "wall_mint", 0))
+                                    key += ":spliced-with-another-version-of-the-url-minted-%s" % ("within-1s" if dt <= 1.0 else "more-than-1s-apart")
+                                    break
                         res.violation(f"{key}:{typ}", f"{typ}: after the crash at cache write {wit.get('nwrite')} ({info['last']}) the hit for {path} (rid {rid}) is a complete {m.framing} message with "
                                       f"{len(m.body)} body bytes; the origin's response had {len(rp.body)}; first difference at {d}", wit)
                 else:
@@ -402,6 +426,13 @@ def run(a, res):
 
     def count_run(typ):
         info = one_run(f"{a.seed}.count.{typ}", typ, 0, False, 0)
+        if info["T"] < 50:
+            # the scripted workload makes several hundred cache writes; a counting run that saw almost none did not run the
+            # workload (seen once on the overloaded shared machine): harness retry, once
+            res.count("harness:count_run_retry")
+            res.note(f"{typ}: counting run saw only {info['T']} cache writes ({info['requests']} requests made); retried")
+            shutil.rmtree(info["sq"].work, ignore_errors=True)
+            info = one_run(f"{a.seed}.count.{typ}.r", typ, 0, False, 0)
         info["tag"] = f"{a.seed}.count.{typ}"
         totals[typ] = info["T"]
         res.count(f"T_cache_writes:{typ}", info["T"])
@@ -409,9 +440,105 @@ def run(a, res):
         wit = {"seed": a.seed, "type": typ, "nwrite": 0}
         if info["T"] == 0:
             res.inconclusive.append(f"{typ}: the interposer counted no cache-file write")
+        if typ == "rock" and os.path.exists(f"{info['sq'].work}/wk.dump"):
+            shutil.copyfile(f"{info['sq'].work}/wk.dump", os.path.join(a.work, "rock.dump"))
+            rock_count.update(prefix=info["prefix"], tag=info["tag"])
         h = restart_and_verify(info, wit, ("no-crash",))
         (None if os.environ.get("C16_KEEP") else shutil.rmtree(info["sq"].work, ignore_errors=True))
         return h
+
+    # ------------------------------------------------------------------ replayed crash states (rock)
+    # The counting run of the non-SMP rock instance recorded every write to the db file WITH its payload, in sequence. The db
+    # is one file that squid only ever changes through these writes, so the exact on-disk state after a crash at write n
+    # (with any prefix of write n applied) can be rebuilt offline: initial `squid -z` db + writes 1..n-1 + prefix. Each such
+    # state costs one squid start instead of a whole workload run, which buys many more crash points -- in particular torn
+    # writes that stop inside a slot's header / swap metadata.
+    rock_count = {}
+
+    def read_dump(path):
+        import struct
+        recs = []
+        data = open(path, "rb").read()
+        pos = 0
+        hs = struct.calcsize("<QQdqQ96s")
+        while pos + hs <= len(data):
+            magic, n, wall, off, ln, pth = struct.unpack_from("<QQdqQ96s", data, pos)
+            if magic != 0x574b494c4c445031:
+                raise RuntimeError("write dump out of sync at byte %d" % pos)
+            pos += hs
+            recs.append((n, wall, off, pth.split(b"\0", 1)[0].decode("latin1"), data[pos:pos + ln]))
+            pos += ln
+        return recs
+
+    def rock_states(seed, k):
+        """[(n, prefix length or None = crash just before write n is applied... i.e. 0 bytes of it)]"""
+        recs = [x for x in read_dump(os.path.join(a.work, "rock.dump")) if x[3].endswith("/rock")]
+        r = random.Random(f"C16:{seed}:rockstates")
+        idx = sorted(r.sample(range(len(recs)), min(k, len(recs))))
+        out = []
+        for i in idx:
+            ln = len(recs[i][4])
+            mode = r.choice(["none", "head", "head", "sector", "uniform"])
+            if mode == "none" or ln < 2:
+                pre = 0
+            elif mode == "head":
+                pre = r.randrange(1, min(ln, 320))
+            elif mode == "sector":
+                pre = 512 * r.randrange(0, max(1, ln // 512))
+            else:
+                pre = r.randrange(0, ln)
+            out.append((i, pre, mode))
+        return recs, out
+
+    def replay_states(seed, k):
+        if not os.path.exists(os.path.join(a.work, "rock.dump")) or "rock" not in templates:
+            res.note("rock replay skipped: no write dump")
+            return
+        recs, states = rock_states(seed, k)
+        res.count("rock_replay:db_writes_recorded", len(recs))
+        if not recs:
+            return
+        image = bytearray(open(os.path.join(templates["rock"], "rock"), "rb").read())
+
+        def apply(rec, upto=None):
+            _n, _w, off, _p, data = rec
+            if upto is not None:
+                data = data[:upto]
+            if off + len(data) > len(image):
+                image.extend(b"\0" * (off + len(data) - len(image)))
+            image[off:off + len(data)] = data
+
+        todo = []
+        nxt = 0
+        for (i, pre, mode) in states:
+            while nxt < i:
+                apply(recs[nxt]); nxt += 1
+            snap = bytearray(image)
+            if pre:
+                _n, _w, off, _p, data = recs[i]
+                snap[off:off + pre] = data[:pre]
+            todo.append((i, pre, mode, bytes(snap)))
+
+        def one_state(st):
+            i, pre, mode, snap = st
+            n_, wall, off, _p, data = recs[i]
+            smp, cd = TYPES["rock"]
+            sq = SquidUnprivileged(a.work, conf=COMMON, smp=smp, cache_dirs=(cd,), name=None)
+            shutil.copytree(templates["rock"], f"{sq.work}/cd")
+            with open(f"{sq.work}/cd/rock", "wb") as f:
+                f.write(snap)
+            subprocess.run(["chown", "-R", "nobody:nogroup", f"{sq.work}/cd"], check=True)
+            sq._inited = True
+            tag = f"{seed}.rs{i}"
+            info = {"sq": sq, "prefix": rock_count["prefix"], "typ": "rock", "requests": 0, "start_failed": False, "tag": tag, "torn_prefix": pre,
+                    "last": f"replayed state: db writes 1..{i} applied, then {pre} of {len(data)} bytes of write {i + 1} (offset {off}, sequence number {n_})"}
+            wit = {"seed": seed, "type": "rock", "replayed_state": i, "prefix": pre, "nwrite": n_}
+            res.count("rock_replay:states")
+            res.count("rock_replay:states_" + mode)
+            restart_and_verify(info, wit, ("replayed", mode, min(9, 10 * i // max(1, len(recs)))))
+            (None if os.environ.get("C16_KEEP") else shutil.rmtree(sq.work, ignore_errors=True))
+
+        in_lanes(todo, one_state, n=4)
 
     def gen_case(seed, i, ncases):
         r = random.Random(f"C16:{seed}:{i}")
@@ -445,7 +572,10 @@ def run(a, res):
         restart_and_verify(info, wit, (info["fired"], c["partial"], phase, kind, fname, min(9, 10 * nwrite // max(1, T))))
         (None if os.environ.get("C16_KEEP") else shutil.rmtree(info["sq"].work, ignore_errors=True))
 
-    if a.replay_data and "type" in a.replay_data:
+    if a.replay_data and "replayed_state" in a.replay_data:
+        cases = []
+        count_run("rock")
+    elif a.replay_data and "type" in a.replay_data:
         rd = a.replay_data
         cases = [{"n": rd.get("case", 0), "seed": rd.get("seed", a.seed), "type": rd["type"], "nwrite": rd.get("nwrite"), "frac": 0, "partial": rd.get("partial", False), "pseed": rd.get("pseed", 1)}]
         if not cases[0]["nwrite"]:
@@ -479,6 +609,8 @@ def run(a, res):
         need = sorted({c["type"] for c in cases if not c.get("nwrite")}, key=ALL_TYPES.index)
         in_lanes(need, count_run)
         in_lanes(cases, crash_case)
+        if not a.replay_data or "replayed_state" in a.replay_data:
+            replay_states(a.seed, 240 if a.tier == "thorough" else 28)
     finally:
         org.stop()
     res.count("origin_requests", org.count())
